@@ -178,6 +178,24 @@ for tag in ('f32', 'f64'):
     both(fam_rt)
 
 
+    # ------------------------------------------------------------------ quat_cast: the pivot is the largest candidate ("every 'largest component' branch")
+    # Over the reals any branch with a non-zero pivot returns +-q, so the round-trip contract above cannot see WHICH branch is taken; in floats the
+    # branch matters (dividing by a small component loses the result to cancellation: seed C04_3 made the z test an `else if`, 13 %% error near the
+    # z axis).  For an ARBITRARY matrix (nine free entries, no rotation assumed) the four branches are different functions, which makes the choice
+    # observable: whenever one of  t_w = m00+m11+m22, t_x = m00-m11-m22, t_y = m11-m00-m22, t_z = m22-m00-m11  is strictly the largest, the result's
+    # component of that name is sqrt(t + 1) / 2 - the component computed directly, not through the division.  Ties are left to the implementation.
+    def fam_pivot(D, sfx, tag=tag, T=T):
+        m9 = mat_ins(3, 3, tag, 'm')
+        TW, TX, TY, TZ = 'm00 + m11 + m22', 'm00 - m11 - m22', 'm11 - m00 - m22', 'm22 - m00 - m11'
+        cands = (('w', TW, 0), ('x', TX, 1), ('y', TY, 2), ('z', TZ, 3))
+        for nm, tv, k in cands:     # one contract per candidate: each goal costs z3 about 50 s, the four run in parallel
+            fnm = 'glm_quat_cast_raw_mat3_pivot_%s_%s%s' % (nm, tag, sfx)
+            D.shim(fnm, 'void', m9, 'auto r = glm::quat_cast(%s); %s' % (mat_make(3, 3, tag, 'm'), q_store('r')), outs=[(T, 'out', 4)])
+            others = ['(%s) > (%s)' % (tv, ov) for on, ov, _ in cands if on != nm]
+            R(fnm, 'glm::quat_cast(mat3)  ' + GQ, build=D, flags=['no-division-obligations'], timeout=240,
+              ensures=[('pivot_is_%s_when_its_candidate_is_strictly_largest' % nm, 'Implies(And(%s), out[%d] == sqrt((%s) + 1) * R(1) / 2)' % (', '.join(others), k, tv))])
+    both(fam_pivot)
+
     # ------------------------------------------------------------------ toQuat(toMat3(q)), quat_cast(mat4_cast(q))
     d.shim('glm_quat_cast_of_mat4_cast_' + tag, 'void', q_ins(tag),
            'auto r = glm::quat_cast(glm::mat4_cast(%s)); %s' % (q, q_store('r')), outs=[(T, 'out', 4)])
